@@ -784,8 +784,12 @@ def oracle(case, impl):
     # a multiply connected input inside a macro (its fetch priority is the subject of C07)
     multi_inner = any(len(srcs) > 1 for lv in lvs[:-1] for sl in lv["spec"]["slots"].values() for srcs in sl)
 
+    # a macro nested in a macro with a connected input (its children get their inputs while the outer macro runs)
+    nested_conn = any(any(lv["spec"]["slots"][str(g)][si] for si in range(2)) for lv in lvs[:-1] for g in lv["macros"])
+
     def sig(clause, **kw):
-        return {"clause": clause, "kind": kind, "nested": nested, "dirty": dirty, "multiconn_in_macro": multi_inner, **kw}
+        return {"clause": clause, "kind": kind, "nested": nested, "dirty": dirty, "multiconn_in_macro": multi_inner,
+                "nested_macro_connected": nested_conn, **kw}
 
     if r.get("no_cut"):
         return [{"clause": "checkpoint-never-written", "detail": str(r), "signature": sig("no-checkpoint")}]
